@@ -599,3 +599,70 @@ def ord2_offset_applied_once(ctx):
                   where(ss[0]))
     ctx.require('engine::execution::query_task::QueryTask::convert_to_output_format' in readers,
                 'ORD-2: the final slice does not read the offset')
+
+
+# ------------------------------------------------------------------------------------ ORD-13
+def ord13_sort_structure(ctx):
+    ctx.rule('ORD-13', 'multi-key ORDER BY is a sequence of stable sorts from the last key to the '
+                       'first; top-n is used only for a single key; the direction flag and the '
+                       'order-preserving decode are applied per key', floor=5)
+    P = ctx.P
+    F = P.one('NormalFormQuery::run')
+    cfg = CFG(F)
+    du = DefUse(F)
+    sorts = calls_matching(F, lambda n: n.endswith('QueryPlanner::sort_by'))
+    topn = calls_matching(F, lambda n: n.endswith('QueryPlanner::top_n'))
+    ctx.require(sorts and topn, 'ORD-13: sort_by / top_n not planned in NormalFormQuery::run')
+    revs = [(b, t) for (b, t) in F.calls() if not b.cleanup and norm_callee(t.func).endswith('Iterator>::rev')
+            and '(syntax::expression::Expr, bool)' in (t.func or '')]
+    nexts = [(b, t) for (b, t) in F.calls() if not b.cleanup and norm_callee(t.func).endswith('Iterator>::next')
+             and 'std::iter::Rev<' in (t.func or '') and '(syntax::expression::Expr, bool)' in t.func]
+    loop_ok = False
+    for (nb, nt) in nexts:
+        for h in cfg.loop_headers():
+            lp = cfg.natural_loop(h)
+            if nb.id in lp and all(sb.id in lp for (sb, st) in sorts):
+                loop_ok = True
+    ctx.check('ORD-13', 'run|keys-sorted-last-to-first', bool(revs) and loop_ok,
+              'the sort loop iterates over order_by reversed (stable sorts compose from the least '
+              'significant key)', where(revs[0][1]) if revs else where(sorts[0][1]))
+    for (b, t) in sorts:
+        ctx.check('ORD-13', 'run|sort-is-stable', t.args[-1].strip() == 'const true',
+                  'sort_by is requested as a stable sort (last argument %s)' % t.args[-1], where(t))
+    # desc flag of the current key
+    for name, lst, pos in (('sort_by', sorts, 3), ('top_n', topn, 3)):
+        for (b, t) in lst:
+            org = du.origins(base_local(t.args[pos]))
+            from_key = any(re.search(r'\(\(\*_\d+\)\.1: bool\)', st.rhs or '') for (_b, st) in org['stmts']) or \
+                re.search(r'\(\(\*_\d+\)\.1: bool\)', t.args[pos]) is not None
+            negated = any((st.rhs or '').startswith('Not(') for (_b, st) in org['stmts'])
+            ctx.check('ORD-13', 'run|%s-direction' % name, from_key and not negated,
+                      '%s receives the DESC flag of the key being sorted (from key: %s, negated: %s)'
+                      % (name, from_key, negated), where(t))
+    # top_n only when there is exactly one key
+    guard_ok = False
+    for bid, blk in F.blocks.items():
+        if blk.cleanup:
+            continue
+        for s in blk.stmts:
+            if s.kind == 'assign' and re.match(r'^Eq\((move|copy) _\d+, const 1_usize\)$', s.rhs):
+                l = base_local(s.rhs)
+                d = du.single_def(l)
+                if d and d[1] == 'term' and 'Vec::<(syntax::expression::Expr, bool)>::len' in (d[2].func or ''):
+                    fl = base_local(s.lhs)
+                    for (b3, k3, o3) in du.uses.get(fl, []):
+                        if k3 == 'term' and o3.kind == 'switch':
+                            tt = [tg for (v, tg) in o3.targets if v != '0']
+                            if tt and all(cfg.dominates(tt[0], tb.id) for (tb, t_) in topn):
+                                guard_ok = True
+    ctx.check('ORD-13', 'run|top-n-single-key-only', guard_ok,
+              'top_n is planned only under order_by.len() == 1', where(topn[0][1]))
+    # ranking goes through order_preserving before it is sorted
+    ops = calls_matching(F, lambda n: n.endswith('query_plan::order_preserving'))
+    ok2 = bool(ops)
+    for (b, t) in sorts + topn:
+        org = du.origins(base_local(t.args[1]))
+        ok2 = ok2 and any(c is ops[0][1] for (_b, c) in org['calls']) if ops else False
+    ctx.check('ORD-13', 'run|sort-key-order-preserving', ok2,
+              'the key that is sorted is the result of order_preserving(..) (decoded unless the codec '
+              'preserves order)', where(ops[0][1]) if ops else None)
